@@ -25,6 +25,18 @@ CHECKS = {
  "C14": ("exhaustive synonym-table walk, bit-for-bit comparison of both spellings on object/NumPy/Awkward/SymPy + flavor twins", "3.C14",
          "Runtime oracle: each synonym getter/setter/field/index/conversion is evaluated next to its geometric spelling on every backend and coordinate system and compared bit-for-bit (SymPy: srepr); results of momentum-named Awkward arrays must have no stale coordinate fields; flavor twins give identical numbers.",
          "bitwise equality, no tolerance"),
+ "C15": ("history checker: random assignment / in-place / failing-step histories against an explicit model of the stored slots", "3.C15",
+         "History monitor: after every step of generated histories (assignments through every spelling, += -= *= /= with operands of any system/flavor, failing steps) the stored slots are compared with an explicit model: assigned coordinate and partner bit-for-bit, other groups' slot identity, predicted coordinate system, identity/class kept, in-place result = functional result read in the own system (and = reference model at 60 digits), raising steps leave every slot identical.",
+         "tau-stored vectors are never subtracted from / scaled negatively (outside the representable domain)"),
+ "C17": ("differential oracle: vector reducers vs plain reducers on object-backend Cartesian components", "3.C17",
+         "Runtime oracle: numpy.sum/.sum()/count_nonzero and ak.sum/ak.count/ak.count_nonzero on vector arrays in all 20 systems must equal the same plain reducer applied to the elements' Cartesian components from the object backend, for every axis/keepdims/mask_identity, empty and missing lists; exact for integer Cartesian storage; unsupported arguments raise.",
+         "1e-9 tolerance for non-integer storage"),
+ "C19": ("differential oracle against the plain structured ndarray for every index/view/copy/pickle action", "3.C19",
+         "Runtime oracle: every integer index, slice, mask, fancy index, reshape/T/ravel/view/copy, field and synonym index, asarray/asanyarray/__array__, pickle protocol 0-5 and copy is applied to the vector array and to the plain structured array; classes, systems, flavors, bytes and continued functionality are compared.",
+         "bitwise comparison"),
+ "C20": ("global-state snapshots at every dispatch (tap hook) and around every call; sys.monitoring failpoints in all 82 dispatch functions; 16-thread stress with yield injection vs sequential run", "3.C20",
+         "State monitor + history/determinism checker: process state (numpy error state/errcall/print options, warnings filters, awkward.behavior, registration flag, dispatch maps, class links) is compared before/after every dispatch and call under 5 prior configurations, on returning, raising and singular calls; registration idempotence in fresh processes; an exception injected at every line of every dispatch function; K-call lists run by 16 threads with forced GIL hand-offs must reproduce the sequential results bit-for-bit; racing lazy first imports from fresh processes.",
+         "schedules are those the stress produced (counted in the evidence); CPython GIL"),
  "C16": ("snapshot monitor: bit-exact operand snapshots before/after every call of the cross-backend sweep + dedicated actions", "3.C16",
          "Invariant monitor: operands (object slots, NumPy root buffers/dtype names/shape/strides/class, Awkward form+buffers+behavior) are snapshotted before and after every catalogued call in every array variant, and around operators, numpy functions, reductions, conversions with keywords, aliasing a.op(a), read-only arrays, pickle/copy/view.",
          "result/operand memory sharing is counted, not judged"),
@@ -47,7 +59,7 @@ CHECKS = {
          "Invariant-at-a-hook monitor: every dispatch of phi/deltaphi/theta/deltaangle/rho/mag/rho2/mag2/t2/t during the workload is range-checked; boundary strata on object/NumPy/Awkward/60-digit; causal and angle predicates judged against exact cosines/tau2 outside a 1e-9 margin.",
          "strict/sign contracts judged only outside the margin; magnitudes within [1e-150, 1e150]"),
 }
-PENDING = ["C07", "C08", "C15", "C17", "C19", "C20"]
+PENDING = ["C07", "C08"]
 
 def main():
     checks = []
